@@ -156,6 +156,7 @@ var dualFormatFixtures = []struct {
 	Str    string
 }{
 	{"bitcoincash", 0, true, "dcc7492d19b744afc6d9f50eaaaa55550695ca01", "QRWVWJFDRXM5FT7XM86SA242242SD9W2QYP3RWP84V"},
+	{"bitcoincash", 1, true, "39d2b8b5299205083f18eddbaeaa5555d523a7ea", "PQUA9W949XFQ2ZPLRRKAHT42242A2GA8AGNQPKPA98"},
 }
 
 // dualFormatHashes returns the verified fixtures' hashes (for P2PKH/P2SH families).
